@@ -19,6 +19,18 @@ CHECKS["C02"]=dict(cat="exploration", engine="xplore", design="DESIGN.md §3 C02
    technique="bounded-exhaustive differential enumeration: every configuration of the published MPQ subset x content classes is written by one implementation and read by the other (library vs independent refimpl::mpqref), both directions",
    text="Full product of the published-subset axes (V1/V2, shifts, none/zlib/bzip2, plain/encrypted/fix-key, single-unit, hash sizes, listfile) x 6 textures; each archive carries files on every sector-boundary length under colliding, directory-nested names and is cross-read bit for bit. The independent side breaks the same-code-on-both-sides symmetry of self round-trips (it found the full-path file key, the trailing-dword cipher step and whole-file decryption of uncompressed multi-sector files).",
    note="Trusted: refimpl::mpqref (independent reader/writer written from the published format; zlib/bzip2 streams via flate2/bzip2 crates).")
+CHECKS["C16"]=dict(cat="exploration", engine="xplore", design="DESIGN.md §3 C16",
+   technique="bounded-exhaustive enumeration of (target encoding x image size) x pixel classes x mipmap settings through the real image_to_blp/encode_blp/parse_blp/blp_to_image, judged by structural equality, an independent byte-level header/offset walker and an independent RAW1/RAW3 decoder",
+   text="Every (target, size) pair of the stated grids (all sizes 1..9/15..17/31..33 squared in quick, 1..33 squared plus powers of two and odd shapes in thorough) x 5 pixel classes x mip settings is encoded and parsed by the real code; an independent walker written from the format documentation checks header, offset table, mip chain and lossless pixels.",
+   note="Trusted: props/c16/src/refblp.rs (independent walker/decoder), the image crate for JPEG level decode. Lossy encodings judged on structure only.")
+CHECKS["C17"]=dict(cat="exploration", engine="xplore", design="DESIGN.md §3 C17",
+   technique="bounded-exhaustive enumeration of all schemas up to 3 (quick) / 4 (thorough) fields over the field-kind alphabet x key positions x record-set classes, each written by the real DbcWriter and read through every real access path, judged against an independent DBC emitter/reader",
+   text="Every schema of the bounded alphabet with every key option and record-count/key-order/string-layout class is emitted by an independent emitter, parsed, rewritten by the real writer and re-read through eager, lazy, mmap and parallel paths (several pool sizes) and all key-lookup methods; values, sizes, string de-duplication and path agreement are compared.",
+   note="Trusted: props/c17/src/dbcref.rs (independent emitter/reader from the documented DBC layout). Parallel path runs on real rayon (pool sizes 1..4); schedule exploration is not claimed here.")
+CHECKS["C18"]=dict(cat="exploration", engine="xplore", design="DESIGN.md §3 C18",
+   technique="bounded-exhaustive enumeration of tile grids (incl. each of the 4096 single tiles) x flags x optional chunks x versions x conversion pairs through the real WDT/WDL writers, readers and converters, plus all 4096 tile indices for the coordinate maps, judged by field equality, byte-identical second write and an independent chunk walker",
+   text="All 4096 tile indices for the coordinate inversion; every grid/flag/version/object-shape combination of the stated axes for WDT and WDL is written, walked by an independent chunk walker (index order, MAOF targets), read back, rewritten and converted between all version pairs.",
+   note="Trusted: props/c18/src/walker.rs (independent walker from the format docs). Derived fields (re-detected version, aliased MPHD words) excluded from equality.")
 NOT_APPLICABLE = {}
 def main():
     checks=[]
